@@ -187,14 +187,12 @@ Print Assumptions C10_instance_Qc.
    run) and one vm_compute lemma per statement; Proofs.C10_IsoPolyProofs turns the boolean checks into statements at every
    rational / real point.  F_i = sum_k node(k,i) phi_k and J_ij = sum_k node(k,i) dphi_k[j] are the basis expansions of
    MappingIsoparametric.Fmap / _J (recognised textually by vlib/c10_tr.py) with the DELIVERED phi and dphi. *)
-From Coq Require Import Reals.
-From Coquelicot Require Import Coquelicot.
-Require Import Base.C09_Poly Base.C09_PolyQ Base.C09_PolyReal Model.C10_IsoPoly Proofs.C10_IsoPolyProofs.
+Require Import Base.C09_Poly Base.C09_PolyQ Model.C10_IsoPoly Proofs.C10_IsoPolyProofs.
 Example C10_requires_Gen_C10GenPoly : True.
 Proof. exact I. Qed.
 Print Assumptions C10_requires_Gen_C10GenPoly.
 Require Import Gen.C10GenPoly.
-Local Close Scope R_scope.
+Local Close Scope Qc_scope.
 Local Close Scope Q_scope.
 
 (* the delivered Jacobian is the formal derivative of the delivered map, every entry, for the element of EVERY mesh class
@@ -210,30 +208,21 @@ Proof.
 Qed.
 Print Assumptions C10_iso_J_is_derivative_of_F.
 
-(* the same over the reals as a TRUE derivative (is_derive of Coquelicot): d F_i / d X_j = J_ij *)
-Theorem C10_iso_J_is_true_derivative_R :
-  J_true_derivative_R 2 quad1_phi quad1_dphi /\ J_true_derivative_R 3 hex1_phi hex1_dphi /\
-  J_true_derivative_R 3 wedge1_phi wedge1_dphi /\ J_true_derivative_R 2 tri2_phi tri2_dphi /\
-  J_true_derivative_R 2 quad2_phi quad2_dphi /\ J_true_derivative_R 3 tet2_phi tet2_dphi /\
-  J_true_derivative_R 3 hex2_phi hex2_dphi.
-Proof.
-  exact (conj (derivative_sound_R _ _ _ quad1_J_is_derivative_of_F) (conj (derivative_sound_R _ _ _ hex1_J_is_derivative_of_F) (conj (derivative_sound_R _ _ _ wedge1_J_is_derivative_of_F) (conj (derivative_sound_R _ _ _ tri2_J_is_derivative_of_F) (conj (derivative_sound_R _ _ _ quad2_J_is_derivative_of_F) (conj (derivative_sound_R _ _ _ tet2_J_is_derivative_of_F) (derivative_sound_R _ _ _ hex2_J_is_derivative_of_F))))))).
-Qed.
-Print Assumptions C10_iso_J_is_true_derivative_R.
+(* The same statement over the reals as a TRUE derivative (Coquelicot is_derive) and the inverse on the delivered J over R are
+   proved in Dyn.C10_RealBridge (compiled on every run; kept out of this file so that it does not depend on the axioms of
+   Coq's real numbers).
 
-(* invDF DF = I = DF invDF and detDF = Leibniz ON the delivered polynomial Jacobian evaluated at any real point where the
-   determinant does not vanish (the cofactor formulas of C10_iso_cofactors instantiated at J := the polynomial J) *)
-Theorem C10_iso_inverse_of_delivered_J_R : forall (dphis : list (list poly)) (pt : nat -> R),
-  (let J := fun i j => reval (isoJ_poly 2 dphis i j) pt in
-   @iso_detDF_2 R ROps J <> 0%R ->
-   meq 2 (@matmul R ROps 2 (@iso_invDF_2 R ROps J) J) (@delta R ROps) /\ meq 2 (@matmul R ROps 2 J (@iso_invDF_2 R ROps J)) (@delta R ROps)) /\
-  (let J := fun i j => reval (isoJ_poly 3 dphis i j) pt in
-   @iso_detDF_3 R ROps J <> 0%R ->
-   meq 3 (@matmul R ROps 3 (@iso_invDF_3 R ROps J) J) (@delta R ROps) /\ meq 3 (@matmul R ROps 3 J (@iso_invDF_3 R ROps J)) (@delta R ROps)).
+   invDF DF = I = DF invDF ON the delivered polynomial Jacobian evaluated at any rational point (in the field Qc) where the
+   determinant does not vanish: the cofactor formulas of C10_iso_cofactors instantiated at J := the polynomial J *)
+Theorem C10_iso_inverse_of_delivered_J : forall (dphis : list (list poly)) (pt : nat -> Qc),
+  (let J := fun i j => qceval (isoJ_poly 2 dphis i j) pt in
+   iso_detDF_2 J <> 0%F -> meq 2 (matmul 2 (iso_invDF_2 J) J) delta /\ meq 2 (matmul 2 J (iso_invDF_2 J)) delta) /\
+  (let J := fun i j => qceval (isoJ_poly 3 dphis i j) pt in
+   iso_detDF_3 J <> 0%F -> meq 3 (matmul 3 (iso_invDF_3 J) J) delta /\ meq 3 (matmul 3 J (iso_invDF_3 J)) delta).
 Proof.
-  intros dphis pt. split; intros J Hd; [exact (iso_inverse_2 R_field J Hd) | exact (iso_inverse_3 R_field J Hd)].
+  intros dphis pt. split; intros J Hd; [exact (iso_inverse_2 Qc_field J Hd) | exact (iso_inverse_3 Qc_field J Hd)].
 Qed.
-Print Assumptions C10_iso_inverse_of_delivered_J_R.
+Print Assumptions C10_iso_inverse_of_delivered_J.
 
 (* the facet map (bndmap with the boundary element's basis) IS the restriction of F to the matching reference facet, for
    every admissible ordering of the facet's vertices (all permutations for simplicial facets, the 8 dihedral orders for the
